@@ -86,6 +86,10 @@ impl OperationControl for GreedyFixed {
 
         let mut p = position;
         let mut matches = 0;
+        // the iterator of the last repetition that matched: it may have other
+        // ways of matching the same span (alternatives that capture
+        // different groups)
+        let mut last = None;
         while p <= guard {
             #[cfg(regexml_verif)]
             crate::verif::tick();
@@ -94,6 +98,7 @@ impl OperationControl for GreedyFixed {
             if matched {
                 matches += 1;
                 p += self.len;
+                last = Some(it);
                 if matches == self.max {
                     break;
                 }
@@ -117,6 +122,8 @@ impl OperationControl for GreedyFixed {
                 position,
                 top: p,
                 len: self.len,
+                current: None,
+                alternatives: last,
             })
         } else {
             Box::new(steps)
@@ -150,6 +157,10 @@ impl RepeatOperation for GreedyFixed {
 // are given back, the groups captured inside the repeated term still hold
 // what the abandoned repetitions captured; matching the repetition that is
 // now the last one again brings them back to the state of that repetition.
+// Before a repetition is given back, the other ways in which the last
+// repetition can match the same span are offered: all alternatives of a
+// fixed-length term have the same length, but they may capture different
+// groups, which a later back-reference can tell apart.
 struct GreedyFixedIterator<'a> {
     matcher: &'a ReMatcher<'a>,
     operation: &'a Operation,
@@ -157,19 +168,32 @@ struct GreedyFixedIterator<'a> {
     position: usize,
     top: usize,
     len: usize,
+    current: Option<usize>,
+    alternatives: Option<Box<dyn Iterator<Item = usize> + 'a>>,
 }
 
 impl Iterator for GreedyFixedIterator<'_> {
     type Item = usize;
 
     fn next(&mut self) -> Option<Self::Item> {
-        let n = self.steps.next()?;
-        if n < self.top && n > self.position {
-            let _ = self
-                .operation
-                .matches_iter(self.matcher, n - self.len)
-                .next();
+        #[cfg(regexml_verif)]
+        crate::verif::tick();
+        if let (Some(current), Some(alternatives)) = (self.current, self.alternatives.as_mut()) {
+            if alternatives.next().is_some() {
+                return Some(current);
+            }
+            self.alternatives = None;
         }
+        let n = self.steps.next()?;
+        if n < self.top {
+            self.alternatives = None;
+            if n > self.position {
+                let mut it = self.operation.matches_iter(self.matcher, n - self.len);
+                let _ = it.next();
+                self.alternatives = Some(it);
+            }
+        }
+        self.current = Some(n);
         Some(n)
     }
 }
